@@ -1029,11 +1029,12 @@ func (loader *Loader) resolveSecuritySchemeRef(doc *T, component *SecurityScheme
 		loader.visitRef(key)
 		if isSingleRefElement(ref) {
 			var scheme SecurityScheme
-			if _, err = loader.loadSingleElementFromURI(ref, documentPath, &scheme); err != nil {
+			elementPath, err := loader.loadSingleElementFromURI(ref, documentPath, &scheme)
+			if err != nil {
 				return err
 			}
 			component.Value = &scheme
-			component.setRefPath(documentPath)
+			component.setRefPath(elementPath)
 		} else {
 			var resolved SecuritySchemeRef
 			doc, componentPath, err := loader.resolveComponent(doc, ref, documentPath, &resolved)
@@ -1070,11 +1071,12 @@ func (loader *Loader) resolveExampleRef(doc *T, component *ExampleRef, documentP
 		loader.visitRef(key)
 		if isSingleRefElement(ref) {
 			var example Example
-			if _, err = loader.loadSingleElementFromURI(ref, documentPath, &example); err != nil {
+			elementPath, err := loader.loadSingleElementFromURI(ref, documentPath, &example)
+			if err != nil {
 				return err
 			}
 			component.Value = &example
-			component.setRefPath(documentPath)
+			component.setRefPath(elementPath)
 		} else {
 			var resolved ExampleRef
 			doc, componentPath, err := loader.resolveComponent(doc, ref, documentPath, &resolved)
@@ -1175,11 +1177,12 @@ func (loader *Loader) resolveLinkRef(doc *T, component *LinkRef, documentPath *u
 		loader.visitRef(key)
 		if isSingleRefElement(ref) {
 			var link Link
-			if _, err = loader.loadSingleElementFromURI(ref, documentPath, &link); err != nil {
+			elementPath, err := loader.loadSingleElementFromURI(ref, documentPath, &link)
+			if err != nil {
 				return err
 			}
 			component.Value = &link
-			component.setRefPath(documentPath)
+			component.setRefPath(elementPath)
 		} else {
 			var resolved LinkRef
 			doc, componentPath, err := loader.resolveComponent(doc, ref, documentPath, &resolved)
